@@ -119,8 +119,18 @@ func LoadDeviceConfigs(ctx context.Context, wg *sync.WaitGroup) (DeviceConfigs, 
 func loadDirectory(root, configType string, configMap ConfigMap) (err error) {
 	err = filepath.Walk(root, func(path string, info fs.FileInfo, err error) error {
 		if err != nil {
-			// missing or unreadable directory: info is nil here
-			return err
+			if path == root {
+				// missing or unreadable directory: info is nil here
+				return err
+			}
+			// an entry below it that cannot be looked at (a path grown too long, a sub-directory without permission, a file
+			// that vanished meanwhile) is reported and skipped like a file that does not parse: it must not cost the
+			// other configurations of this directory, and of the directories after it, their load
+			log.Info(fmt.Sprintf("device config entry %s (%s) skipped: %s", path, configType, err), logger.Warning)
+			if info != nil && info.IsDir() {
+				return filepath.SkipDir
+			}
+			return nil
 		}
 		if info.IsDir() {
 			return nil
